@@ -73,6 +73,8 @@ def render_func(prog, fname):
     f = prog["funcs"][fname]
     cur = f["mod"]
     lines = []
+    if f["kind"] == "class":
+        return _render_class(prog, fname)
     if f["kind"] == "data":
         pf = f.get("pathform", "lit")
         if pf == "lit":
@@ -96,7 +98,11 @@ def render_func(prog, fname):
             lines.append(f"    {r} = {_ref_name(prog, cur, v['mod'], it['name'], it.get('form', 'direct'))}")
         elif t == "call":
             g = prog["funcs"][it["f"]]
-            lines.append(f"    {r} = {_ref_name(prog, cur, g['mod'], it['f'], it.get('form', 'direct'))}()")
+            nm = _ref_name(prog, cur, g["mod"], it["f"], it.get("form", "direct"))
+            if g["kind"] == "class":
+                lines.append(f"    {r} = {nm}({lit(it.get('carg', 1))}).m()")
+            else:
+                lines.append(f"    {r} = {nm}()")
         elif t == "ho":
             g = prog["funcs"][it["f"]]
             nm = _ref_name(prog, cur, g["mod"], it["f"], it.get("form", "direct"))
@@ -149,6 +155,24 @@ def render_func(prog, fname):
         lines.append("    return None")
     else:
         raise ValueError(ret)
+    return lines
+
+
+def _render_class(prog, fname):
+    """A class with a constructor argument and one method whose body is rendered like a function body."""
+    f = prog["funcs"][fname]
+    tmp = dict(f, kind="plain", params=[], end=False)
+    p2 = dict(prog, funcs=dict(prog["funcs"], **{fname: tmp}))
+    body = render_func(p2, fname)
+    # body = ["def name():", "    rec(name)", items..., "    return (...)"]
+    lines = [f"class {fname}(object):", "    def __init__(self, a0):", "        self.a0 = a0", "",
+             "    def m(self):"]
+    for ln in body[1:-1]:
+        lines.append("    " + ln)
+    ret = body[-1].strip()
+    # splice the constructor argument into the returned tuple
+    ret = ret.replace(f"return ({fname!r}, {f['ver']}", f"return ({fname!r}, {f['ver']}, self.a0", 1)
+    lines.append("        " + ret)
     return lines
 
 
